@@ -84,6 +84,9 @@ def gen_elements(rng, tier="quick", common_prefix=False):
                "fwhm": rng.choice([32, 16, 8]), "bits": rng.choice([8, 8, 6])}
         req = {"period": rng.choice([-2, -1, 0, 1, 1, 2, 3, 4]), "ncalc": rng.choice([1, 2, T, 3 * T, 10000]),
                "fwhm": 32 if bits == 8 else rng.choice([6, 4])}
+    # the quantisers' target mean: zero by default, but a constructor argument like the others
+    dig["tmean"] = rng.choice([0, 0, 0, 1.5, -3, 20])
+    req["tmean"] = rng.choice([0, 0, 0, 1.5, -2, 5]) if bits == 8 else rng.choice([0, 0, 0, 1, -1.5])
     return {"T": T, "B": B, "window": rng.choice(WINDOWS), "bits": bits, "dig": dig, "req": req,
             # integer parameters as Python ints or as numpy integers (what arithmetic on arrays hands back)
             # (not int32: with NumPy 2 promotion a user PKTIDX >= 2**31 plus an int32 block length raises
@@ -182,10 +185,10 @@ def _icast(el):
 def build_elements(el):
     import setigen.voltage as sv
     c = _icast(el)
-    dig = sv.RealQuantizer(target_fwhm=el["dig"]["fwhm"], num_bits=c(el["dig"]["bits"]),
+    dig = sv.RealQuantizer(target_mean=el["dig"].get("tmean", 0), target_fwhm=el["dig"]["fwhm"], num_bits=c(el["dig"]["bits"]),
                            stats_calc_period=c(el["dig"]["period"]), stats_calc_num_samples=c(el["dig"]["ncalc"]))
     fb = sv.PolyphaseFilterbank(num_taps=c(el["T"]), num_branches=c(el["B"]), window_fn=el["window"])
-    req = sv.ComplexQuantizer(target_fwhm=el["req"]["fwhm"], num_bits=c(el["bits"]),
+    req = sv.ComplexQuantizer(target_mean=el["req"].get("tmean", 0), target_fwhm=el["req"]["fwhm"], num_bits=c(el["bits"]),
                               stats_calc_period=c(el["req"]["period"]), stats_calc_num_samples=c(el["req"]["ncalc"]))
     return dig, fb, req
 
@@ -254,7 +257,7 @@ def ref_pipeline(requests, ant, el, be, digitize, h=None):
         for p in range(pols):
             chunks = [np.asarray(r[a][p]) for r in requests]
             if digitize:
-                dq = mv.RefQuant(0, el["dig"]["fwhm"] / mv.FWHM, el["dig"]["bits"], el["dig"]["period"], el["dig"]["ncalc"])
+                dq = mv.RefQuant(el["dig"].get("tmean", 0), el["dig"]["fwhm"] / mv.FWHM, el["dig"]["bits"], el["dig"]["period"], el["dig"]["ncalc"])
                 qs = []
                 for c in chunks:
                     pre, _ = dq.pre(np.real(c))
@@ -268,8 +271,8 @@ def ref_pipeline(requests, ant, el, be, digitize, h=None):
             spec = mv.ref_pfb(x, T, B, h)[:, be["start_chan"]:be["start_chan"] + be["num_chans"]]
             out["unq"][(a, p)] = spec
             scale = float(np.max(np.abs(spec))) if spec.size else 0.0
-            rq = mv.RefQuant(0, el["req"]["fwhm"] / mv.FWHM, el["bits"], el["req"]["period"], el["req"]["ncalc"])
-            iq = mv.RefQuant(0, el["req"]["fwhm"] / mv.FWHM, el["bits"], el["req"]["period"], el["req"]["ncalc"])
+            rq = mv.RefQuant(el["req"].get("tmean", 0), el["req"]["fwhm"] / mv.FWHM, el["bits"], el["req"]["period"], el["req"]["ncalc"])
+            iq = mv.RefQuant(el["req"].get("tmean", 0), el["req"]["fwhm"] / mv.FWHM, el["bits"], el["req"]["period"], el["req"]["ncalc"])
             pre_r, pre_i = [], []
             m = 0
             for c in counts:
